@@ -25,7 +25,7 @@ ASSUMPTIONS = ['a coroutine given to create_task that ends by cancellation, and 
                'the returned future end cancelled (the mirror rule of the statement: through convert_to_comm the reply is the mirror of that future)',
                'an exception raised by a _schedule_rpc callback may arrive wrapped, as long as it chains to the original',
                'thread-mode cases that hit their watchdog are inconclusive, never violations']
-REQUIRED = ['idle_foreign_loops', 'adapter/convert_plain', 'foreign_loop_futures', 'adapter/comm_thread', 'injected_delays', 'adapter/unwrap', 'adapter/plum2kiwi', 'adapter/create_task', 'adapter/schedule_rpc', 'outcome/value', 'outcome/exception', 'outcome/cancel',
+REQUIRED = ['actions_ending_with_a_cancellation', 'idle_foreign_loops', 'adapter/convert_plain', 'foreign_loop_futures', 'adapter/comm_thread', 'injected_delays', 'adapter/unwrap', 'adapter/plum2kiwi', 'adapter/create_task', 'adapter/schedule_rpc', 'outcome/value', 'outcome/exception', 'outcome/cancel',
             'depth/2', 'depth/3', 'inner_first', 'outer_first', 'thread_mode', 'action_cases', 'callbacks_counted', 'mirrors_of_one_future', 'exception_objects_as_values', 'pure_python_futures', 'unprintable_failures']
 EXHAUSTIVE = {'quick': False, 'thorough': False}
 BOUNDS = {'quick': 'depth<=3 exhaustive orders, depth 4 sampled (200), thread mode 120 cases', 'thorough': 'depth 4 all orders, thread mode 2000 cases'}
@@ -131,7 +131,7 @@ def gen_cases(tier, seed):
         for delay_at in ('plum_to_kiwi_future', 'on_done', None):
             cases.append({'adapter': 'comm_thread', 'depth': 1, 'order': [0], 'outcome': oc, 'thread': True, 'delay_at': delay_at})
         cases.append({'adapter': 'comm_thread', 'via': 'schedule_rpc', 'depth': 1, 'order': [0], 'outcome': oc, 'thread': True, 'delay_at': None})
-    for scen in ('run', 'run-twice', 'cancel-run', 'raise', 'raise-run', 'args', 'cancel-twice-run', 'cancel-inside-run', 'cancel-inside-raise', 'run-inside-run', 'run-inside-raise'):
+    for scen in ('run', 'run-twice', 'cancel-run', 'raise', 'raise-run', 'args', 'cancel-twice-run', 'cancel-inside-run', 'cancel-inside-raise', 'run-inside-run', 'run-inside-raise', 'cancelled-inside-then-cancel'):
         cases.append({'adapter': 'action', 'scenario': scen, 'depth': 1, 'order': [], 'outcome': ['value', 1], 'thread': False})
     return cases
 
@@ -572,6 +572,10 @@ def run_action(case):
                 holder['inner'] = 'ran'
             except Exception as exc:  # noqa: BLE001
                 holder['inner'] = 'refused:%s' % type(exc).__name__
+        if scen == 'cancelled-inside-then-cancel':
+            gone = loop.create_future()
+            gone.cancel()
+            return gone.result()  # raises asyncio.CancelledError
         if scen.startswith('raise') or scen in ('cancel-inside-raise', 'run-inside-raise'):
             raise AdapterError('action-failed')
         return ['ran', list(args), kwargs]
@@ -610,6 +614,16 @@ def run_action(case):
                     pass
                 if len(calls) != 1:
                     viol.append(V('action-call-count', 'action-call-count:' + scen, 'function called %d times' % len(calls)))
+        elif scen == 'cancelled-inside-then-cancel':
+            # the function ends with a cancellation (it asked a cancelled future for its result): whether or not that is reported through
+            # the action, the action is not left running -- whoever holds it can still withdraw it, so it ends one way or the other
+            try:
+                action.run()
+            except BaseException:  # noqa: BLE001
+                pass
+            obs['actions_ending_with_a_cancellation'] = 1
+            if not action.done() and not action.cancel():
+                viol.append(V('action-stuck', 'action-stuck:' + scen, 'after its function ended with a cancellation the action is pending and refuses to be cancelled: it can never end'))
         elif scen in ('cancel-run', 'cancel-twice-run'):
             action.cancel()
             if scen == 'cancel-twice-run':
